@@ -75,6 +75,9 @@ def run(name, checks):
     wt = "/tmp/seedrun_%s_repo" % name
     lean = "/tmp/seedrun_lean"
     out_dir = "/tmp/seedrun_%s_out" % name
+    import fcntl
+    lock = open("/tmp/seedrun.lock", "w")
+    fcntl.flock(lock, fcntl.LOCK_EX)  # one seeded run at a time (they share the private Lean copy)
     sh(["git", "-C", "/repo", "worktree", "remove", "--force", wt])
     rc, out = sh(["git", "-C", "/repo", "worktree", "add", "--detach", wt, "HEAD"])
     assert rc == 0, out
